@@ -967,7 +967,7 @@ var streamPanicReviewed = map[string]string{
 func C12(c *Ctx) {
 	w, r := c.W, c.R
 	r.Explanation = "(A10) panic-source inventory over every stream function reachable from the stream MsgServer and the stream messages' ValidateBasic: every explicit panic and every call of a panicking SDK API (TruncateInt64/Int64/Uint64, Coin.Sub/Add, NewCoin(s), NewDecCoinFromCoin, Quo*, ...) is enumerated from the resolved program; each site must either be guarded by the recognised dominating predicate (flow rate > 0 before division, deposit > claim before Sub, same denomination before Add, amount > 0 before NewCoins) or appear in the reviewed table keyed by function, API and ordinal with its reason; any other site — e.g. a newly added Int64() on a deposit-derived value — is a violation. Decides absence of unreviewed arithmetic panic sources, not liveness."
-	r.Rules = []string{"A10.panic-api", "A10.explicit-panic", "A2.panic-guard"}
+	r.Rules = []string{"A10.panic-api", "A10.explicit-panic", "A2.panic-guard", "A10.implicit-panic"}
 	r.Trusted = []string{"reasons recorded in the reviewed table (rate within [0,1] is C16's obligation)", "SDK arithmetic panics only as documented"}
 	r.NotDecided = []string{"that claim/cancel/top-up succeed (liveness)", "bank-side failures"}
 	scope := streamScope(c)
@@ -1035,6 +1035,8 @@ func C12(c *Ctx) {
 		}
 	}
 	r.Floor("panicking API call sites in stream scope", n, 14)
+	// run-time panics no statement announces (computed index, unchecked type assertion, division by a variable)
+	implicitPanics(c, scope)
 }
 
 // the guard kinds that can discharge a call of each panicking API
